@@ -295,6 +295,15 @@ def _run_rot_landscape(case):
             viol.append((sig("argmax-vs-align"), f"planted rotation {k}, d={d.tolist()}: the landscape is maximal in candidate {int(cand)} at shift {peak.tolist()}, align reports candidate {int(res.label)} at {np.round(res.shift, 2).tolist()} (landscape there {100 * (lds.max() - at) / max(rng_, 1e-30):.0f} % of its range below the maximum)"))
         if mname in ("ZNCC", "NCC") and abs(float(lds.max()) - float(res.score)) > 0.03:
             viol.append((sig("peak-vs-score"), f"landscape maximum {float(lds.max()):.4f} but alignment score {float(res.score):.4f}"))
+    # fit() scores the same candidates in one batch: same candidate, shift and score as align()
+    if hasattr(model, "fit"):
+        try:
+            _, rf = model.fit(img, M)
+            # (align labels the candidate, rotation-major; fit labels the template: candidate % n_templates, and reports the rotation)
+            if int(rf.label) != int(res.label) % ntemp or np.abs(np.asarray(rf.shift, dtype=np.float64) - np.asarray(res.shift, dtype=np.float64)).max() > 0.051 or abs(float(rf.score) - float(res.score)) > 1e-3 * max(1.0, abs(float(res.score))) or np.abs(np.asarray(rf.quat) - np.asarray(res.quat)).max() > 1e-6:
+                viol.append((sig("fit-vs-align"), f"planted rotation {k}, d={d.tolist()}: fit reports candidate {int(rf.label)}, shift {np.round(rf.shift, 2).tolist()}, score {float(rf.score):.5f}; align reports candidate {int(res.label)}, shift {np.round(res.shift, 2).tolist()}, score {float(res.score):.5f}"))
+        except Exception as e:  # noqa
+            viol.append((sig(f"fit-raised-{type(e).__name__}"), str(e)[:200]))
     return {"nontrivial": True, "outcome": f"rot-landscape|{mname}|{'viol' if viol else 'ok'}", "viol": viol}
 
 
